@@ -375,17 +375,25 @@ def run(ctx):
                 ("tf", 0, 2), ("tf", 3, 2), ("tf_norepeat", 0, None),
                 # file_parallelism=None given to the shuffled concurrent interface: refused, or some finite default (the unshuffled branch
                 # is left out: `islice(paths, None)` is documented Python for "everything", and None is outside the declared `int`)
-                ("concurrent_none", 3, None),
                 # a *finite* shuffled pass (repeat=False) through the concurrent interface, stopped after k examples
                 ("concurrent_norepeat", 3, 2)]
         eargs.append({"root": str(ctx.scratch / f"c14_{i}"), "fmt": fmt, "eps": eps, "k": 7, "sizes": [12, 40] if not ctx.thorough else [12, 40, 160], "configs": cfgs})
+    # file_parallelism=None given to the *shuffled* concurrent interface: refused (it is not an int), or given some finite meaning — in a
+    # child of its own with a short watchdog: never producing the k examples of a repeating stream is unbounded read-ahead
+    na = [{"root": str(ctx.scratch / "c14_none"), "fmt": "npz", "eps": 2, "k": 7, "sizes": [40], "configs": [("concurrent_none", 3, None)]}]
+    try:
+        eres_none = child.call("harness.checks.c14", "run_e2e", na, timeout=150)
+    except child.ChildTimeout:
+        eres_none = []
+        ctx.report({"kind": "opens", "iface": "concurrent_none", "shuffled": True, "hang": True},
+                   "as_numpy_iterator_concurrent(shuffle=3, file_parallelism=None, repeat=True) over 40 shards did not deliver 7 examples within 150 s (normally: refused at once, or a fraction of a second)", {"case": {k: v for k, v in na[0].items() if k != "root"}})
     # a pass that goes beyond the first batch of a reader with file_parallelism=None (one worker per core): more examples than two such
     # batches hold, from datasets of three and six batches — the second and later batches are as bounded as the first
     import os as _os
     ncpu = _os.cpu_count() or 1
     eargs.append({"root": str(ctx.scratch / "c14_long"), "fmt": ["npz", "fb"][ctx.seed % 2], "eps": 2, "k": 2 * ncpu * 2 + 3, "sizes": [3 * ncpu, 6 * ncpu],
                   "configs": [("tf_norepeat", 0, None), ("concurrent", 0, ncpu)]})
-    eres = child.call("harness.checks.c14", "run_e2e", eargs, timeout=900)
+    eres = child.call("harness.checks.c14", "run_e2e", eargs, timeout=900) + eres_none
     nrun = 0
     for r in eres:
         grp = collections.defaultdict(list)
